@@ -32,6 +32,9 @@ KEY_LAWS = {
     "root-inverts-power": ("((p * x)**n).root(n)", "p * x", "n != 0"),
     "prefix-cancels": ("(p * x) / (p * x)", "One", ""),
     "prefix-inverse": ("(p * x) * (p**-1 * y)", "x * y", ""),
+    "prefixed-one-root": ("((p * One)**n).root(n)", "p * One", "n != 0"),
+    "prefixed-one-power": ("(p * One)**n", "p**n * One", ""),
+    "dimensionless-quotient-keeps-prefix": ("((p * x) / x).root(1)", "p * One", ""),
 }
 CORE = ["measured.si.Meter", "measured.si.Second", "measured.si.Gram", "measured.iec.Bit",
         "measured.iec.Byte", "measured.si.Watt", "measured.us.Foot", "measured.si.Hertz",
